@@ -39,6 +39,13 @@ def gate_specs() -> dict[str, dict[str, Any]]:
         "gate-first": {"name": "gate-first", "stages": [stage("g", [], [g()]), stage("z", ["g"], [ok()])], "gates": ["g"]},
         # a gate beside an independent branch that finishes (no join): CompleteWorkflow is queued while the gate waits
         "gate-beside-branch": {"name": "gate-beside-branch", "stages": [stage("a", [], [ok()]), stage("g", ["a"], [g()]), stage("b", ["a"], [ok(), ok()])], "gates": ["g"]},
+        # the gate is one upstream of a first-of join that fires on the other branch: when the gate is released later nothing
+        # downstream of it is left to run
+        "gate-under-firstof": {"name": "gate-under-firstof", "stages": [stage("a", [], [ok()]), stage("b", ["a"], [ok()]), stage("g", ["a"], [g()]),
+                                                                          stage("j", ["b", "g"], [ok()], join="DISC"), stage("z", ["j"], [ok()])], "gates": ["g"]},
+        # a finished leaf beside a gate that has a downstream stage
+        "gate-then-stage-beside-leaf": {"name": "gate-then-stage-beside-leaf", "stages": [stage("a", [], [ok()]), stage("g", ["a"], [g()]), stage("c", ["g"], [ok()]),
+                                                                                            stage("l", ["a"], [ok()])], "gates": ["g"]},
         "two-gates": {"name": "two-gates", "stages": [stage("a", [], [ok()]), stage("g", ["a"], [g()]), stage("h", ["g"], [g(), ok()]), stage("z", ["h"], [ok()])],
                       "gates": ["g", "h"]},
     }
